@@ -168,7 +168,7 @@ def run(ctx):
     f = ctx.fn("darling_core::error::Error::write_errors")
     if f:
         c = ctx.find_calls(f, r"^syn::error::Error::into_compile_error$")
-        rets = [e for _, e in ctx.ret_exprs(f)]
+        rets = ctx.ret_values(f)
         ctx.ob("C06.X.write-errors-compile-error", f.key, "into_compile_error", len(c) == 1 and len(rets) == 1 and "into_compile_error(" in rets[0] and "::from(self))" in rets[0], "returns %s" % rets)
 
     # ------------------------------------------------------------ S: the proc-macro entry table
